@@ -194,6 +194,9 @@ func Alphabet(fam *Family, inU bool, files []int) []Block {
 			out = append(out, Block{Encl: e, File: f})
 		}
 	}
+	if inU {
+		out = append(out, Block{Encl: EPlain, File: 3}) // a function in a file of u that does not import d
+	}
 	return out
 }
 
@@ -220,6 +223,9 @@ func deviations(h []Block) int {
 			n++
 		}
 		if b.File != 0 {
+			n++
+		}
+		if b.File == 3 {
 			n++
 		}
 	}
@@ -262,7 +268,7 @@ func Mixes(full bool) []Mix {
 			for _, mut := range []bool{false, true} {
 				for extra := 0; extra <= 2; extra++ {
 					for _, last := range []bool{false, true} {
-						m := Mix{imm, ctor, mut, extra, last}
+						m := Mix{Imm: imm, Ctor: ctor, Mut: mut, Extra: extra, PreludeLast: last}
 						if !full {
 							// quick: the pairwise-interesting corner set
 							if extra != 0 && !(imm && ctor == 1 && !mut && !last) {
@@ -279,6 +285,12 @@ func Mixes(full bool) []Mix {
 							}
 						}
 						out = append(out, m)
+						// the importing package without any annotated type of its own (relevant for u only)
+						if imm && (ctor == 1 || full) && !mut && extra == 0 && !last {
+							n := m
+							n.NoOwn = true
+							out = append(out, n)
+						}
 					}
 				}
 			}
